@@ -96,6 +96,21 @@ Theorem C18_constraint_vertices :
 Proof. exact constraint_vertices. Qed.
 Print Assumptions C18_constraint_vertices.
 
+(* FULL.  Vertex-based field: the representation power is the field's order (cstrv_power, generated from the four
+   `** self.order` of vertex2d._initialize_variables).  With a single feature edge e = (A, B), A <> B, in the plain-sum
+   branch, the accumulated constraints of its end points are 0 + e^{i order transport(A,B)} and 0 + e^{i order transport(B,A)}:
+   branch 0 of each end point's frame points along the edge in the connection's own angles. *)
+Theorem C18_constraint_vertices_power :
+  forall (T : Type) (O : ops T) (order : nat) (V : list (vec T)) (E : list edge) (Bv : list (vec T * vec T))
+         (tr : Z -> Z -> cx T) (e A B : Z),
+    znth E e (0, 0)%Z = (A, B) -> A <> B ->
+    cstrv_smooth_branch false (Z.of_nat order) = false /\
+    (forall k, cstrv_power k = k) /\
+    init_vertices_acc O false order V E Bv tr (e :: nil) A = cadd O (c0 O) (cpow O (tr A B) order) /\
+    init_vertices_acc O false order V E Bv tr (e :: nil) B = cadd O (c0 O) (cpow O (tr B A) order).
+Proof. exact init_vertices_single_edge. Qed.
+Print Assumptions C18_constraint_vertices_power.
+
 (* FULL under the stated guard ("no value below the threshold").  normalize gives modulus 1 (re^2 + im^2 = 1) to every
    element whose modulus passes the generated guard abs > 1e-10; so does the whole bordered pipeline, for any solver, any
    smoothing answers and any number of smoothing steps, at every element whose last un-normalised value passes the guard. *)
